@@ -173,6 +173,16 @@ func genC18(e *emitter, tier string) {
 		e.emit(loadCase("mutate:typed", mut(func(mp *onnx.ModelProto) { mp.Graph.Initializer[ti].FloatData = []float32{1, 2, 3, 4, 5} }), ""))
 		e.emit(loadCase("mutate:typed", mut(func(mp *onnx.ModelProto) { mp.Graph.Initializer[ti].Int32Data = []int32{1, 2} }), ""))
 		e.emit(loadCase("mutate:typed", mut(func(mp *onnx.ModelProto) { mp.Graph.Initializer[ti].Uint64Data = []uint64{1, 2, 3, 4} }), ""))
+		// both encodings populated and neither fits the dims (whatever fallback there is between them ends in an
+		// error, not in a tensor library panic)
+		for _, nb := range []int{4, 12, 20, 40} {
+			nb := nb
+			e.emit(loadCase("mutate:both-encodings", mut(func(mp *onnx.ModelProto) {
+				tp := mp.Graph.Initializer[ti]
+				tp.FloatData, tp.Int64Data, tp.DoubleData, tp.Int32Data = []float32{1, 2, 3, 4, 5}, []int64{1, 2, 3, 4, 5}, []float64{1, 2, 3, 4, 5}, []int32{1, 2, 3, 4, 5}
+				tp.RawData = make([]byte, nb)
+			}), fmt.Sprint(ti, nb)))
+		}
 	}
 	// an initializer that carries NO payload at all (every data field empty), with its own dims, without dims
 	// (a scalar), with dims [0] / [1] / [2]; for every element type code
